@@ -20,6 +20,7 @@ import RdfModel.Driver.XsdFloat
 import RdfModel.Driver.GoTime
 import RdfModel.Driver.IRI
 import RdfModel.Driver.PIRI
+import RdfModel.Driver.IriUnify
 import RdfModel.Driver.JsonLd
 import RdfModel.Driver.JsonLdToRdf
 import RdfModel.Driver.RdfXml
@@ -30,6 +31,7 @@ import RdfModel.Driver.Latch
 import RdfModel.Driver.Offx
 import RdfModel.Driver.Mdd
 import RdfModel.Driver.RdfaDec
+import RdfModel.Driver.TtlDocO
 open RdfModel
 
 def dispatch (line : String) : String :=
@@ -58,6 +60,7 @@ def dispatch (line : String) : String :=
         else if comp = "nqo" then Driver.NQO.handle op args
         else if comp = "iri" then Driver.IRI.handle op args
         else if comp = "piri" then Driver.PIRI.handle op args
+        else if comp = "iriu" then Driver.IriUnify.handle op args
         else if comp = "rx" then Driver.RdfXml.handle op args
         else if comp = "rxd" then Driver.RdfXmlDec.handle op args
         else if comp = "pipe" then Driver.Pipe.handle op args
@@ -66,6 +69,7 @@ def dispatch (line : String) : String :=
         else if comp = "offx" then Driver.Offx.handle op args
         else if comp = "mdd" then Driver.Mdd.handle op args
         else if comp = "rdfa" then Driver.RdfaDec.handle op args
+        else if comp = "ttlo" then Driver.TtlDocO.handle op args
         else none
       r.getD "bad-op"
     | _ => "bad-op"
